@@ -56,16 +56,25 @@ impl AtomicUsize {
     }
 
     /// One scheduling point for the whole read-modify-write, as for `fetch_add`.
+    ///
+    /// `fetch_update` is a load followed by a compare-and-swap loop: if another thread changes
+    /// the cell between the two, the closure is evaluated again on the new value.  The value is
+    /// therefore read before the scheduling point, and if it has changed when the thread gets
+    /// the turn the closure is first evaluated on the stale value, as it would have been.
     pub fn fetch_update<F>(
         &self,
         set_order: Ordering,
         fetch_order: Ordering,
-        f: F,
+        mut f: F,
     ) -> Result<usize, usize>
     where
         F: FnMut(usize) -> Option<usize>,
     {
+        let seen = self.0.load(fetch_order);
         yield_point("usize.fetch_update");
+        if self.0.load(fetch_order) != seen {
+            let _ = f(seen);
+        }
         self.0.fetch_update(set_order, fetch_order, f)
     }
 }
@@ -134,5 +143,32 @@ impl<T> ArcSwap<T> {
                 return cur;
             }
         }
+    }
+}
+
+/// `arc_swap::ArcSwapOption` as used for the talkback cells.  Its scheduling points (`slot.*`)
+/// are finer than the interleaving model of the harness, which may treat them as pass-through.
+pub struct ArcSwapOption<T>(arc_swap::ArcSwapOption<T>);
+
+impl<T> Default for ArcSwapOption<T> {
+    fn default() -> Self {
+        Self(arc_swap::ArcSwapOption::default())
+    }
+}
+
+impl<T> ArcSwapOption<T> {
+    #[allow(clippy::should_implement_trait)]
+    pub fn from(v: Option<Arc<T>>) -> Self {
+        Self(arc_swap::ArcSwapOption::from(v))
+    }
+
+    pub fn load(&self) -> arc_swap::Guard<Option<Arc<T>>> {
+        yield_point("slot.load");
+        self.0.load()
+    }
+
+    pub fn store(&self, v: Option<Arc<T>>) {
+        yield_point("slot.store");
+        self.0.store(v)
     }
 }
